@@ -43,7 +43,7 @@ def build_inputs(c):
                     (CORPUS_PANICKY, 'panicky')):
         for s in lst:
             kinds.setdefault(s, kd)
-    ngen = 120 if c.tier == 'quick' else 500
+    ngen = 120 if c.tier == 'quick' else 800
     for _ in range(ngen):
         s = gen_expr(r)
         if no_hang(s):
@@ -96,9 +96,9 @@ def check(c):
     for ci, (cname, flags, setup) in enumerate(CONTEXTS):
         ins = list(full)
         if ci == 0:
-            ins += r.sample(prefixes, min(len(prefixes), 1500 if c.tier == 'quick' else 9000))
+            ins += r.sample(prefixes, min(len(prefixes), 1500 if c.tier == 'quick' else 20000))
         else:
-            ins += r.sample(prefixes, min(len(prefixes), 150 if c.tier == 'quick' else 1000))
+            ins += r.sample(prefixes, min(len(prefixes), 150 if c.tier == 'quick' else 2000))
         for s in ins:
             jobs.append((ci, s))
     # phase 1: uninterrupted
